@@ -106,6 +106,38 @@ CHECKS = {
         note=TB + "; subordinates are assumed to respond only while selected (as the property states); a window padded by the decoder alignment is taken to hold only the subordinate's own 2^aw addresses.",
         technique="TLA+ spec + TLC model checking; exported vectors replayed on the real design; TLC trace validation",
         design="5 (C07)"),
+    "C02": dict(
+        text=("TLC model-checks specs/MemoryMap_MC.tla: every history over a small universe (root aw=3, "
+              "alignment 0/1, ratio-1 and ratio-2/sparse window candidates, sizes 0-3, every explicit or "
+              "implicit address, per-call alignments, invalid arguments, freeze/bridge) up to a bounded number "
+              "of items, with disjointness, bounds, alignment as invariants and first-fit, exact-or-rejected, "
+              "size coverage, cursor, failure atomicity and frozen-rejects asserted on every transition; TLC "
+              "-simulate behaviours and seeded random histories are executed on real MemoryMap objects and "
+              "every call's outcome plus resources()/windows()/cursor of every map is validated by TLC against "
+              "specs/MemoryMap.tla."),
+        note=MM + "; where the documentation demands more than the code enforces (explicit address not a multiple of the effective alignment; dense windows of ratio>1) either outcome is accepted, as the property states.",
+        technique="TLA+ spec of the API + TLC model checking of histories; TLC-generated and random histories replayed on real objects; TLC trace validation",
+        design="5 (C02)"),
+    "C03": dict(
+        text=("Same specification: LookupCoherent (all_resources by the statement's arithmetic vs an "
+              "independent top-down decode, every address of every map, each resource once, ascending) is an "
+              "invariant of every reachable tree of MemoryMap_MC; on real trees (up to 7 maps, dense ratio 2/4 "
+              "over leaves, sparse and ratio-1 windows anywhere, named/anonymous) all_resources(), "
+              "find_resource() of every object incl. never-added ones and decode_address() of EVERY address are "
+              "logged and compared by TLC with the specification's values for the same construction history."),
+        note=MM + "; each resource object is added to at most one map of a tree.",
+        technique="TLA+ spec of the API + TLC model checking; histories replayed on real objects; TLC trace validation of every query result",
+        design="5 (C03)"),
+    "C18": dict(
+        text=("Same specification: acceptance is stated operationally (prefix comparison over the visible "
+              "names, including those absorbed from anonymous windows) and declaratively (AcceptedOnlyIfFree, "
+              "LegalNameNeverRefused with SequencesExt!IsPrefix on every transition; PathsDistinct and "
+              "VisiblePrefixFree as invariants); real histories with colliding names of 1-3 parts ('0' vs 0, "
+              "shared prefixes, anonymous windows absorbing several names) are validated by TLC: every "
+              "acceptance and refusal must be the one the specification allows and nothing may change on refusal."),
+        note=MM + "; the exception class of a refusal is not constrained.",
+        technique="TLA+ spec of the API + TLC model checking; histories replayed on real objects; TLC trace validation",
+        design="5 (C18)"),
 }
 
 PENDING = "check not built yet in this round; see DESIGN.md section 13 for the build order"
